@@ -272,6 +272,19 @@ impl<'a> Interp<'a> {
             }
             k::MutWithCap | k::MutZeroed | k::MutFromSlice | k::MutFromIter | k::MutNew => {
                 let Some(j) = self.free_slot() else { return self.skip(kk) };
+                // capacity requests no allocation can satisfy (> isize::MAX): the constructor must panic and nothing else changes
+                if matches!(kk, k::MutWithCap | k::MutZeroed) && op.b % 16 == 15 {
+                    let n = match op.a % 3 {
+                        0 => usize::MAX,
+                        1 => IMAX + 1,
+                        _ => IMAX + 1 + (op.a as usize),
+                    };
+                    tr!(self, "s{} = {} n {} (unrepresentable)", j, k::name(kk), n);
+                    let (r, _) = if kk == k::MutWithCap { call(|| BytesMut::with_capacity(n)) } else { call(|| BytesMut::zeroed(n)) };
+                    let panicked = r.is_err();
+                    drop(r);
+                    return self.finish(kk, panicked, Expect::MustPanic, &pre);
+                }
                 let n = sel_size(op.a);
                 let data = content(op.c, n);
                 tr!(self, "s{} = {} n {}", j, k::name(kk), n);
